@@ -597,6 +597,14 @@ def pathW (p : Params α) : Nat → List (Site α) → List Nat → α
 def pathSum (p : Params α) (e0 : Emis α) (sites : List (Site α)) : α :=
   sumL ((allPaths p.n (sites.length + 1)).map (pathW p 0 ((true, e0) :: sites)))
 
+/-- Σ over the hidden paths through `sites` (coming from `prev`) that are in state `j` at position `i` -/
+def margW (p : Params α) (prev : Nat) (sites : List (Site α)) (i j : Nat) : α :=
+  sumL (((allPaths p.n sites.length).filter (fun ys => ys[i]? == some j)).map (pathW p prev sites))
+
+/-- numerator of the posterior marginal of state `j` at position `i` -/
+def pathMarginal (p : Params α) (e0 : Emis α) (sites : List (Site α)) (i j : Nat) : α :=
+  margW p 0 ((true, e0) :: sites) i j
+
 /-- the unscaled forward recursion with restarts: `acc` = product of the totals of the finished
 segments, `prev` = forward vector of the current segment -/
 def fwdULoop (p : Params α) : List (Site α) → α → List α → α
